@@ -75,6 +75,8 @@ def check_case(case, tier):
             return CaseResult(discarded=True)
     if any(rc.get("ealt") for rc in case["reactions"]):
         labels.append("mixed-electron-spelling")
+    if any(sp["k"] == "mol" and len({t[0] for t in sp["t"]}) < len(sp["t"]) for sp in case["pool"]):
+        labels.append("element-named-twice-in-a-formula")
     with N.Scratch() as d:
         try:
             net = c01.build(case)
